@@ -76,7 +76,7 @@ def _mix(classes, seed):
 
 def _ens(classes, seed):
     from skactiveml.classifier import ParzenWindowClassifier
-    return [ParzenWindowClassifier(classes=list(classes), metric_dict={"gamma": g}, random_state=seed) for g in (0.1, 0.5, 2.0)]
+    return [ParzenWindowClassifier(classes=list(classes), metric_dict={"gamma": g}, random_state=seed + i) for i, g in enumerate((0.1, 0.5, 2.0))]
 
 
 def _nic(seed):
@@ -122,7 +122,7 @@ def registry():
     E.append(Entry("EpistemicUncertaintySampling[precompute]", lambda c, s: P.EpistemicUncertaintySampling(precompute=True, random_state=s), "clf", clfkw, samplewise=True, binary=True))
     E.append(Entry("MonteCarloEER", lambda c, s: P.MonteCarloEER(random_state=s), "clf", clfkw, samplewise=True, slow=True))
     E.append(Entry("ValueOfInformationEER", lambda c, s: P.ValueOfInformationEER(random_state=s), "clf", clfkw, feat=False, samplewise=True, slow=True))
-    for m in ("KL_divergence", "vote_entropy"):
+    for m in ("KL_divergence", "vote_entropy", "variation_ratios"):
         E.append(Entry(f"QueryByCommittee[{m}]", lambda c, s, m=m: P.QueryByCommittee(method=m, random_state=s), "clf",
                        lambda c, s: {"ensemble": _ens(c, s)}, samplewise=True))
     E.append(Entry("Quire", lambda c, s: P.Quire(classes=list(c), random_state=s), "clf", feat=False, samplewise=True, anyidx=False))
